@@ -4,6 +4,7 @@ package main
 
 import (
 	"fmt"
+	"time"
 	"runtime"
 	"go/token"
 	"go/types"
@@ -132,6 +133,8 @@ type Violation struct {
 type Config struct {
 	ConcretizeParams  map[string][]int
 	ConcretizeResults map[string][]int
+	ConcShr           map[string][][2]int
+	ConcShrParams     map[string][][2]int
 	LoopSymLimit      int
 	InstrLimit        int64
 	PathLimit         int
@@ -175,6 +178,9 @@ type Machine struct {
 	instrMonLen    int
 	mapOrderNondet bool
 	twin           bool
+	noSummaries    bool
+	forkProf       map[string]int
+	keepHeap       bool
 	rng            uint64
 
 	pc      []*Term
@@ -306,6 +312,9 @@ func (m *Machine) load(p value, t types.Type) value {
 		}
 		return m.loadT(p.obj, p.idx, t)
 	case SymPtr:
+		if cf := m.tableClosedForm(p); cf != nil {
+			return cf
+		}
 		// ite chain over the cells in range
 		var r *Term
 		for i := p.hi; i >= p.lo; i-- {
@@ -322,6 +331,63 @@ func (m *Machine) load(p value, t types.Type) value {
 		return r
 	}
 	panic(abortErr{fmt.Sprintf("load through %T", p)})
+}
+
+// tableClosedForm recognises constant tables whose cells in range follow (1<<i)-1,
+// 1<<i or ^((1<<i)-1) (bitmap.Mask / Bit / RMask and friends) and returns the
+// equivalent shift expression.  The pattern is checked against the actual cells.
+func (m *Machine) tableClosedForm(p SymPtr) *Term {
+	if p.hi-p.lo < 3 {
+		return nil
+	}
+	var w uint8
+	kind := 7 // bit0: mask, bit1: bit, bit2: rmask
+	for i := p.lo; i <= p.hi && kind != 0; i++ {
+		c, ok := p.obj.cells[p.off+i].(*Term)
+		if !ok || !c.IsConst() || c.w == 0 {
+			return nil
+		}
+		w = c.w
+		if i > 64 {
+			return nil
+		}
+		var mask uint64
+		if i >= 64 {
+			mask = ^uint64(0)
+		} else {
+			mask = (uint64(1) << uint(i)) - 1
+		}
+		if c.k != mask&maskW(w) {
+			kind &^= 1
+		}
+		if i >= 64 || c.k != (uint64(1)<<uint(i))&maskW(w) {
+			kind &^= 2
+		}
+		if c.k != ^mask&maskW(w) {
+			kind &^= 4
+		}
+	}
+	if kind == 0 || w == 0 {
+		return nil
+	}
+	tb := m.tb
+	idx := tb.Resize(p.idx, w, false)
+	if p.idx.w > w {
+		// index wider than the element: only safe when it fits
+		if p.idx.hi > maskW(w) {
+			return nil
+		}
+	}
+	one := tb.Const(w, 1)
+	bit := tb.Shl(one, idx) // shift >= w yields 0, so (1<<w)-1 = all ones as required
+	switch {
+	case kind&1 != 0:
+		return tb.Sub(bit, one)
+	case kind&2 != 0:
+		return bit
+	default:
+		return tb.BNot(tb.Sub(bit, one))
+	}
 }
 
 func (m *Machine) store(p value, t types.Type, v value) {
@@ -436,12 +502,16 @@ func (m *Machine) feasible(c *Term) (bool, Model) {
 	lvl := m.sol.level
 	m.sol.Push()
 	m.sol.Assert(c)
+	tq := time.Now()
 	r := m.sol.Check()
 	var mod Model
 	if r == Sat {
 		mod = m.sol.Model()
 	}
 	m.sol.PopTo(lvl)
+	if m.forkProf != nil {
+		m.forkProf[fmt.Sprintf("query[%v] %s", r, m.posOf(m.curInstr))] += int(time.Since(tq).Milliseconds()) + 1000000
+	}
 	switch r {
 	case Sat:
 		if !m.modelOK {
@@ -509,6 +579,9 @@ func (m *Machine) branch(c *Term) bool {
 	f, fm := m.feasible(nc)
 	switch {
 	case t && f:
+		if m.forkProf != nil {
+			m.forkProf[m.posOf(m.curInstr)]++
+		}
 		m.pushChoice(decision{kind: 0, b: false}, fm)
 		m.decs = append(m.decs, decision{kind: 0, b: true})
 		m.assume(c)
@@ -582,6 +655,9 @@ func (m *Machine) concretize(t *Term, why string) uint64 {
 		// is any other value possible?  (cheap check avoids a useless choice point)
 		other, om := m.feasible(m.tb.Not(eq))
 		if other {
+			if m.forkProf != nil {
+				m.forkProf["concretize "+why+" @"+m.posOf(m.curInstr)]++
+			}
 			m.pushChoice(decision{kind: 2, v: v}, om)
 		}
 		m.decs = append(m.decs, decision{kind: 1, v: v})
@@ -707,7 +783,9 @@ func (m *Machine) Run(fn *ssa.Function, harness string, params map[string]int) (
 		// reset state for the next work item
 		m.frames = m.frames[:0]
 		m.choices = m.choices[:0]
-		m.rollback(baseTrail)
+		if !m.keepHeap {
+			m.rollback(baseTrail)
+		}
 		m.sol.PopTo(baseLevel)
 		for _, id := range m.factLog {
 			delete(m.facts, id)
@@ -820,7 +898,7 @@ func (m *Machine) step() (alive bool) {
 	m.decs = m.decs[:0]
 	m.instrs++
 	if m.cfg.InstrLimit > 0 && m.instrs > m.cfg.InstrLimit {
-		abortf("instruction budget exceeded (%d)", m.cfg.InstrLimit)
+		abortf("instruction budget exceeded (%d) in %s at %v", m.cfg.InstrLimit, m.stackString(), in)
 	}
 	defer func() {
 		if r := recover(); r != nil {
